@@ -14,6 +14,7 @@ is in flight, ticks ending with a `ResamplingError`, the resampling actor's remo
 handed out, so it needs no parameter here; how the real `Timer` turns lateness into events is sampled by the harness.
 -/
 import Frequenz.Lemmas.Resampler
+import Frequenz.Lemmas.ResamplerTie
 
 open Resampler Extracted.Resampling
 
@@ -148,3 +149,60 @@ theorem C07_no_advance_on_error_duplicates :
 example : (runWith true true 1000000 (init 1000000) [.add 0, .tickStart, .add 1, .tickEnd, .tickStart, .tickEnd, .tickStart]).2
     = [{ ts := 1000000, recipients := [0] }, { ts := 2000000, recipients := [0, 1] }, { ts := 3000000, recipients := [0, 1] }] := by
   decide
+
+/-- **The hand-written tick machine is the current source text** of `Resampler` / `_StreamingHelper`
+(`Extracted.ResamplerLoops.*`, machine-translated from `_resampling.py` on every run).  For ALL states, series,
+results and failure patterns:
+(1) `add_timeseries` / `remove_timeseries` are the `add` / `remove` steps (dict in insertion order, the "already
+registered" refusal, the returned flags);
+(2) `_StreamingHelper.resample` raises iff the receiving task has ended or the sink raises, and otherwise hands its sink a
+sample stamped with the timestamp it was called with;
+(3) `tickStart` is the first half of the loop body of `Resampler.resample()` (gather over the series registered now, in
+dict order, each called with `_window_end`);
+(4) `tickEnd` is the second half (results matched with the snapshot, `_window_end += period` before the
+`ResamplingError`, which names exactly the series that raised and ends `resample()`; the series added or removed during
+the await play no role, no other exception escapes; `one_shot` stops the loop). -/
+theorem C07_model_is_source :
+    (∀ (snap advErr : Bool) (p : Int) (st : State) (s : SeriesId),
+      (stepWith snap advErr p st (.add s)).1.series = (Extracted.ResamplerLoops.addTimeseries st.series s).1 ∧
+      (Extracted.ResamplerLoops.addTimeseries st.series s).2 = !decide (s ∈ st.series) ∧
+      stepWith snap advErr p st (.remove s) =
+        ({ st with series := (Extracted.ResamplerLoops.removeTimeseries st.series s).1 }, []) ∧
+      (Extracted.ResamplerLoops.removeTimeseries st.series s).2 = decide (s ∈ st.series)) ∧
+    (∀ (d r : Bool) (ts : Int),
+      Extracted.ResamplerLoops.streamingResample d r ts = (d || r, if d then none else some ts)) ∧
+    (∀ (p : Int) (st : State) (taskDone sinkRaises : Nat → Bool),
+      st.dead = false → st.stopped = false → st.inflight = none →
+      (∀ s, st.failing.contains s = (taskDone s || sinkRaises s)) →
+      stepWith true true p st .tickStart =
+        ({ st with inflight := some (Extracted.ResamplerLoops.gatherCalls st.series st.windowEnd p).length,
+                   raised := ((ResamplerTie.gatherOutcome taskDone sinkRaises
+                      (Extracted.ResamplerLoops.gatherCalls st.series st.windowEnd p)).filter (fun o => o.2.1)).map (·.1) },
+         [{ ts := st.windowEnd,
+            recipients := ((ResamplerTie.gatherOutcome taskDone sinkRaises
+                      (Extracted.ResamplerLoops.gatherCalls st.series st.windowEnd p)).filter (fun o => !o.2.1)).map (·.1) }]) ∧
+      (∀ o ∈ ResamplerTie.gatherOutcome taskDone sinkRaises (Extracted.ResamplerLoops.gatherCalls st.series st.windowEnd p),
+          o.2.1 = false → o.2.2 = some st.windowEnd) ∧
+      (Extracted.ResamplerLoops.gatherCalls st.series st.windowEnd p).map (·.1) = st.series) ∧
+    (∀ (p : Int) (st : State) (gathered : List Nat) (results : List Bool) (oneShot : Bool),
+      st.dead = false → st.inflight = some gathered.length → st.raised = ResamplerTie.exceptionsOf gathered results →
+      Extracted.ResamplerLoops.afterGather st.windowEnd p gathered results st.series oneShot =
+        some (advanceWindowEnd st.windowEnd p, st.raised,
+              if st.raised ≠ [] then Extracted.ResamplerLoops.LoopExit.raised
+              else if oneShot then Extracted.ResamplerLoops.LoopExit.stop else Extracted.ResamplerLoops.LoopExit.next) ∧
+      stepWith true true p st .tickEnd =
+        ({ st with windowEnd := advanceWindowEnd st.windowEnd p, inflight := none, raised := [],
+                   stopped := if st.raised ≠ [] then true else st.stopped }, [])) :=
+  ⟨fun snap advErr p st s =>
+      ⟨(ResamplerTie.step_add snap advErr p st s).1, by rw [ResamplerTie.addTimeseries_eq],
+       ResamplerTie.step_remove snap advErr p st s, by rw [ResamplerTie.removeTimeseries_eq]⟩,
+   ResamplerTie.streamingResample_eq,
+   fun p st td sr hd hs hi hf => ResamplerTie.tickStart_eq p st td sr hd hs hi hf,
+   fun p st g r o hd hi hr => ResamplerTie.tickEnd_eq p st g r o hd hi hr⟩
+
+-- non-vacuity: a running machine with two series, the second failing; the two halves of one tick
+example : let st : State := { (init 1000000) with series := [0, 1], failing := [1] }
+    (stepWith true true 1000000 st .tickStart).1.raised = [1] ∧
+    Extracted.ResamplerLoops.afterGather 1000000 1000000 [0, 1] [false, true] [0, 1, 2] false
+      = some (2000000, [1], Extracted.ResamplerLoops.LoopExit.raised) := by decide
+
